@@ -140,7 +140,7 @@ def run(ctx):
 
 
 def oracle_stream(ctx, G, OFF):
-    n = ctx.n(14, 120)
+    n = ctx.n(40, 240)
     for i in range(n):
         r = ctx.rng("oracle", i)
         seed = r.getrandbits(30)
@@ -148,7 +148,8 @@ def oracle_stream(ctx, G, OFF):
         S = r.choice([N, N + 1])
         fmt = r.choice(["sdmf", "mdmf"])
         nver = r.choice([1, 2, 3])
-        scenario = r.choice(["flip", "flip", "truncate", "other-file", "forged-with-our-key", "forged-with-our-key", "older-version", "mix"])
+        scenario = r.choice(["flip", "flip", "truncate", "other-file", "forged-with-our-key", "forged-with-our-key", "older-version", "mix",
+                             "header-forgery", "header-forgery"])
         if scenario == "older-version" and nver == 1:
             nver = 2
         case = {"seed": seed, "k": k, "N": N, "servers": S, "format": fmt, "versions": nver, "scenario": scenario}
@@ -169,10 +170,25 @@ def oracle_stream(ctx, G, OFF):
             r.shuffle(shs)
             victims = shs[:r.randrange(1, len(shs) + 1)]
             altered = set()
+            if scenario == "header-forgery":
+                # the SAME signed-prefix field (k, N, segment size or data length) is forged identically in
+                # at least k shares while at least one share stays intact: once an intact share has been
+                # verified, a reader must still refuse prefixes the signature does not cover
+                nvict = max(min(k, len(shs) - 1), min(len(shs) - 1, r.randrange(k, len(shs) + 1)))
+                victims = shs[:nvict]
+                fld = r.choice(["k", "N", "segsize", "datalen"])
+                sdmf_off = {"k": (57, 58), "N": (58, 59), "segsize": (59, 67), "datalen": (67, 75)}
+                mdmf_off = {"k": (41, 42), "N": (42, 43), "segsize": (43, 51), "datalen": (51, 59)}
+                delta = r.choice([1, 1, 2, 255])
+                case["forged_field"] = fld
             for sh in victims:
                 raw = g.read_share(sh)
                 sc = scenario if scenario != "mix" else r.choice(["flip", "truncate", "other-file", "forged-with-our-key", "older-version"])
-                if sc == "flip":
+                if sc == "header-forgery":
+                    lo, hi = (sdmf_off if raw[OFF] == 0 else mdmf_off)[fld]
+                    val = (int.from_bytes(raw[OFF + lo:OFF + hi], "big") + delta) % (1 << (8 * (hi - lo)))
+                    g.write_share(sh, raw[:OFF + lo] + val.to_bytes(hi - lo, "big") + raw[OFF + hi:])
+                elif sc == "flip":
                     for _ in range(r.choice([1, 1, 2, 5])):
                         pos = OFF + r.randrange(len(raw) - OFF)
                         raw = raw[:pos] + bytes([raw[pos] ^ (1 << r.randrange(8))]) + raw[pos + 1:]
